@@ -1,17 +1,17 @@
 CONSTANTS
   P = 46337
   Family = "M"
-  Depth = 4
+  Depth = 3
   MaxHeap = 5
-  MaxR = 6
+  MaxR = 4
   Ds = {2}
   InitKinds = {"Measure", "DiagMeasure", "PDF:S"}
-  FactorKinds = {"Factor", "Rank1", "Linear", "Const"}
+  FactorKinds = {"Measure", "PDF:S"}
   CondKinds = {}
-  RInit = {3}
-  SampleMod = 2
+  RInit = {1, 2}
+  SampleMod = 1
   SampleRes = 0
-  Rich = TRUE
+  Rich = FALSE
 INIT Init
 NEXT Next
 CHECK_DEADLOCK FALSE
